@@ -355,6 +355,121 @@ harness! {
     }
 }
 
+/// the first (scrutinee) argument of every macro is evaluated exactly once, like the receiver of the std method
+macro_rules! once {
+    ($s:ident, $cnt:ident, $e:expr, $n:literal) => {{
+        $cnt.set(0);
+        let _ = $e;
+        chk!($s, $cnt.get() == 1, $n);
+    }};
+}
+
+harness! {
+    /// kind=complete tier=quick bound="loop-free; rebind_if_ok! / try_rebind! with components whose ORDER of assignment is observable: (i, arr[i]) with a symbolic index and value, (x, x), (let a, let a) shadowing, and the arity-3 chain (i, arr[i], i); compared with the assignments written out left to right"
+    fn c19_rebind_assignment_order(s) {
+        let a = (s.u8() % 3) as usize;
+        let b = (s.u8() % 3) as usize;
+        let v = s.u8();
+        let w = s.u8();
+        let ok = s.bool();
+        // (i, arr[i])
+        let r: Result<(usize, u8), E> = if ok { Ok((a, v)) } else { Err(E(v)) };
+        let (mut i, mut arr) = (b, [0u8; 3]);
+        konst::rebind_if_ok! {(i, arr[i]) = r => }
+        let (mut ei, mut earr) = (b, [0u8; 3]);
+        if let Ok(t) = r {
+            ei = t.0;
+            earr[ei] = t.1;
+        }
+        chk!(s, i == ei && arr[0] == earr[0] && arr[1] == earr[1] && arr[2] == earr[2], "C19.rebind_if_ok.components_assigned_left_to_right");
+        fn tr(r: Result<(usize, u8), E>, b: usize) -> Result<(usize, [u8; 3]), E> {
+            let (mut i, mut arr) = (b, [0u8; 3]);
+            konst::try_rebind! {(i, arr[i]) = r}
+            Ok((i, arr))
+        }
+        match (tr(r, b), r) {
+            (Ok((i2, arr2)), Ok(_)) => chk!(s, i2 == ei && arr2[0] == earr[0] && arr2[1] == earr[1] && arr2[2] == earr[2], "C19.try_rebind.components_assigned_left_to_right"),
+            (Err(e2), Err(e)) => chk!(s, e2 == e, "C19.try_rebind.components_assigned_left_to_right"),
+            _ => chk!(s, false, "C19.try_rebind.components_assigned_left_to_right"),
+        }
+        // (x, x): the later component wins
+        let r2: Result<(u8, u8), E> = if ok { Ok((v, w)) } else { Err(E(v)) };
+        let mut x = 0u8;
+        konst::rebind_if_ok! {(x, x) = r2 => }
+        chk!(s, x == (if ok { w } else { 0 }), "C19.rebind_if_ok.same_place_twice_last_component_wins");
+        // (let y, let y): the later binding shadows the earlier one
+        let mut seen = None;
+        konst::rebind_if_ok! {(let y, let y) = r2 => seen = Some(y); }
+        chk!(s, seen == (if ok { Some(w) } else { None }), "C19.rebind_if_ok.let_twice_last_binding_shadows");
+        // arity 3: (i, arr[i], i)
+        let r3: Result<(usize, u8, usize), E> = if ok { Ok((a, v, b)) } else { Err(E(v)) };
+        let (mut j, mut arr3) = (0usize, [0u8; 3]);
+        konst::rebind_if_ok! {(j, arr3[j], j) = r3 => }
+        let (mut ej, mut earr3) = (0usize, [0u8; 3]);
+        if let Ok(t) = r3 {
+            ej = t.0;
+            earr3[ej] = t.1;
+            ej = t.2;
+        }
+        chk!(s, j == ej && arr3[0] == earr3[0] && arr3[1] == earr3[1] && arr3[2] == earr3[2], "C19.rebind_if_ok.arity3.components_assigned_left_to_right");
+        cov!(s, ok && a == 2 && b == 0 && v != 0, "C19.cover.rebind_order_observable");
+    }
+}
+
+harness! {
+    /// kind=complete tier=quick bound="loop-free; Option<u8> / Result<u8, E> over the full domain; every option::/result:: macro (closure and function-path forms), try_! and try_opt! called with a scrutinee EXPRESSION that counts its evaluations: exactly one evaluation, whatever the variant and whatever the callee answers"
+    fn c19_scrutinee_evaluated_once(s) {
+        let o = any_opt(s);
+        let r = any_res(s);
+        let d = s.u8();
+        let fl = s.bool();
+        let alt = any_opt(s);
+        f::setup(d, fl);
+        let c = Cell::new(0u8);
+        let oo: Option<Option<u8>> = if s.bool() { Some(o) } else { None };
+        once!(s, c, option::unwrap_or!({ bump(&c); o }, d), "C19.option.unwrap_or.scrutinee_evaluated_once");
+        once!(s, c, option::unwrap_or_else!({ bump(&c); o }, || d), "C19.option.unwrap_or_else.closure.scrutinee_evaluated_once");
+        once!(s, c, option::unwrap_or_else!({ bump(&c); o }, f::fb), "C19.option.unwrap_or_else.fn.scrutinee_evaluated_once");
+        once!(s, c, option::ok_or!({ bump(&c); o }, E(d)), "C19.option.ok_or.scrutinee_evaluated_once");
+        once!(s, c, option::ok_or_else!({ bump(&c); o }, || E(d)), "C19.option.ok_or_else.closure.scrutinee_evaluated_once");
+        once!(s, c, option::ok_or_else!({ bump(&c); o }, f::fb_err), "C19.option.ok_or_else.fn.scrutinee_evaluated_once");
+        once!(s, c, option::map!({ bump(&c); o }, |x| x.wrapping_add(d)), "C19.option.map.closure.scrutinee_evaluated_once");
+        once!(s, c, option::map!({ bump(&c); o }, f::add), "C19.option.map.fn.scrutinee_evaluated_once");
+        once!(s, c, option::and_then!({ bump(&c); o }, |x| if fl { Some(x) } else { None }), "C19.option.and_then.closure.scrutinee_evaluated_once");
+        once!(s, c, option::and_then!({ bump(&c); o }, f::add_opt), "C19.option.and_then.fn.scrutinee_evaluated_once");
+        once!(s, c, option::or_else!({ bump(&c); o }, || alt), "C19.option.or_else.closure.scrutinee_evaluated_once");
+        once!(s, c, option::or_else!({ bump(&c); o }, f::fb_opt), "C19.option.or_else.fn.scrutinee_evaluated_once");
+        once!(s, c, option::filter!({ bump(&c); o }, |x| x.wrapping_add(d) < 128), "C19.option.filter.closure.scrutinee_evaluated_once");
+        once!(s, c, option::filter!({ bump(&c); o }, f::pred), "C19.option.filter.fn.scrutinee_evaluated_once");
+        once!(s, c, option::flatten!({ bump(&c); oo }), "C19.option.flatten.scrutinee_evaluated_once");
+        // the filtered value is the one that was tested (a second evaluation could yield another one)
+        let flip = Cell::new(false);
+        let got = option::filter!({ flip.set(!flip.get()); if flip.get() { o } else { alt } }, f::pred);
+        chk!(s, got.is_none() || got == o, "C19.option.filter.fn.returns_the_tested_value");
+        once!(s, c, result::unwrap_or!({ bump(&c); r }, d), "C19.result.unwrap_or.scrutinee_evaluated_once");
+        once!(s, c, result::unwrap_or_else!({ bump(&c); r }, |e| e.0), "C19.result.unwrap_or_else.closure.scrutinee_evaluated_once");
+        once!(s, c, result::unwrap_or_else!({ bump(&c); r }, f::of_err), "C19.result.unwrap_or_else.fn.scrutinee_evaluated_once");
+        once!(s, c, result::unwrap_err_or_else!({ bump(&c); r }, |v| E(v)), "C19.result.unwrap_err_or_else.closure.scrutinee_evaluated_once");
+        once!(s, c, result::unwrap_err_or_else!({ bump(&c); r }, f::to_err), "C19.result.unwrap_err_or_else.fn.scrutinee_evaluated_once");
+        once!(s, c, result::ok!({ bump(&c); r }), "C19.result.ok.scrutinee_evaluated_once");
+        once!(s, c, result::err!({ bump(&c); r }), "C19.result.err.scrutinee_evaluated_once");
+        once!(s, c, result::map!({ bump(&c); r }, |v| v.wrapping_add(d)), "C19.result.map.closure.scrutinee_evaluated_once");
+        once!(s, c, result::map!({ bump(&c); r }, f::add), "C19.result.map.fn.scrutinee_evaluated_once");
+        once!(s, c, result::map_err!({ bump(&c); r }, |e| e.0), "C19.result.map_err.closure.scrutinee_evaluated_once");
+        once!(s, c, result::map_err!({ bump(&c); r }, f::err_add), "C19.result.map_err.fn.scrutinee_evaluated_once");
+        once!(s, c, result::and_then!({ bump(&c); r }, |v| if fl { Ok(v) } else { Err(E(v)) }), "C19.result.and_then.closure.scrutinee_evaluated_once");
+        once!(s, c, result::and_then!({ bump(&c); r }, f::add_res), "C19.result.and_then.fn.scrutinee_evaluated_once");
+        once!(s, c, result::or_else!({ bump(&c); r }, |e| if fl { Ok(e.0) } else { Err(e) }), "C19.result.or_else.closure.scrutinee_evaluated_once");
+        once!(s, c, result::or_else!({ bump(&c); r }, f::err_res), "C19.result.or_else.fn.scrutinee_evaluated_once");
+        fn t1(r: R, c: &Cell<u8>) -> R { let v = konst::try_!({ bump(c); r }); Ok(v) }
+        fn t2(o: Option<u8>, c: &Cell<u8>) -> Option<u8> { let v = konst::try_opt!({ bump(c); o }); Some(v) }
+        once!(s, c, t1(r, &c), "C19.try_.scrutinee_evaluated_once");
+        once!(s, c, t2(o, &c), "C19.try_opt.scrutinee_evaluated_once");
+        cov!(s, o.is_some() && r.is_err() && fl, "C19.cover.once_some_err");
+        cov!(s, o.is_none() && r.is_ok() && !fl, "C19.cover.once_none_ok");
+    }
+}
+
 // ---------------------------------------------------------------------------
 // rebind_if_ok! / try_rebind!
 //
